@@ -26,6 +26,62 @@ func runC05(p *core.Prog, r *core.Report) {
 	c05R2(p, r)
 	c05R3(p, r)
 	c05R6(p, r)
+	afterFailureRule(p, r, "C05.R7")
+}
+
+// afterFailureRule: when the last upload step failed, the upload is over. The function cancels the
+// session and returns the error; it does not go on to do what it does after a successful upload
+// (record the blob as present, log it as pushed, …).
+func afterFailureRule(p *core.Prog, r *core.Report, rule string) {
+	r.Rule(rule, "a failed upload ends the call: from the failure edge of the chunked upload in the registry scheme's BlobPut no function of the scheme other than the cancel request is called before the return", 1)
+	fn := p.Method("scheme/reg", "Reg", "BlobPut")
+	if fn == nil {
+		r.MissingAnchor(rule, "scheme/reg.(*Reg).BlobPut")
+		return
+	}
+	var chunked *ssa.Call
+	core.Calls(fn, func(c ssa.CallInstruction) {
+		if g := core.CalleeFn(c); g != nil && canon(g) == "blobPutUploadChunked" {
+			chunked, _ = c.(*ssa.Call)
+		}
+	})
+	if chunked == nil {
+		r.MissingAnchor(rule, "chunked upload step in BlobPut")
+		return
+	}
+	bad := ""
+	edges := errEdgesOf(fn, chunked)
+	for _, e := range edges {
+		for in := range (core.Reach{}).FromEdge(e[0], e[1]) {
+			c, ok := in.(ssa.CallInstruction)
+			if !ok {
+				continue
+			}
+			g := core.CalleeFn(c)
+			if g == nil || core.FuncPkg(g) != core.FuncPkg(fn) || canon(g) == "blobUploadCancel" {
+				continue
+			}
+			bad = g.Name() + " at " + p.Pos(in.Pos())
+		}
+	}
+	if len(edges) == 0 {
+		// no branch on the error: everything after the step runs on failure as well
+		for in := range (core.Reach{}).FromInstr(chunked) {
+			c, ok := in.(ssa.CallInstruction)
+			if !ok {
+				continue
+			}
+			g := core.CalleeFn(c)
+			if g == nil || core.FuncPkg(g) != core.FuncPkg(fn) || canon(g) == "blobUploadCancel" {
+				continue
+			}
+			if _, isDefer := in.(*ssa.Defer); isDefer {
+				continue
+			}
+			bad = g.Name() + " at " + p.Pos(in.Pos())
+		}
+	}
+	r.Check(bad == "", rule, p.FuncName(fn), "nothing but cancel after a failed upload", p.Pos(chunked.Pos()), "after the chunked upload failed the function still calls "+bad+": what is meant for a blob that was stored (for instance remembering it as present) happens for one that was not")
 }
 
 // c05R6: the fall-back from a single request to a chunked transfer, and the resend of a request body
